@@ -1,4 +1,4 @@
-"""C02 — BPTC(196,96): interleave table, component codes, encode/extract wiring (repair schedule NOT decided)."""
+"""C02 — BPTC(196,96): interleave table, component codes, encode/extract wiring, repair of every error pattern of weight <= 2."""
 from __future__ import annotations
 
 import ast
@@ -25,7 +25,7 @@ def run(ctx):
     ctx.assumptions = [
         "C06 holds (Hamming generators are systematic: first k outputs equal the inputs)",
         "numpy/bitarray subscript semantics as modelled in sa/prov.py",
-        "the error-correction schedule of repair_if_necessary is NOT decided (runtime syndromes)",
+        "repair clause: one abstract run per error pattern (finite case split over the 19,306 patterns of weight <= 2; quick tier: the 196 single errors, all pairs in one matrix row or column, the pad bit pairs and every 17th other pair); each run has the MESSAGE symbolic",
     ]
     ctx.saw(file=ci.module.relpath, table=f"{q}.INTERLEAVING_INDICES")
     try:
@@ -68,6 +68,118 @@ def run(ctx):
 
     # ---------------- component codes and wiring (array-provenance analysis)
     wiring.check_bptc19696(ctx, ci, T, info)
+    repair_rules(ctx, ci, T)
     ctx.require("table/interleave-formula", 1)
     ctx.require("wiring/encode-systematic", 1)
     ctx.require("wiring/extract", 1)
+    ctx.require("repair/corrects-weight-le-2", 4)
+
+
+# ------------------------------------------------------------------------------------------------ repair clause
+def repair_rules(ctx, ci, T):
+    """decode(encode(m) ^ e) == m for every error pattern e of weight <= 2, decided per pattern for all 2^96 messages at once:
+    encode is interpreted on 96 message atoms, the pattern's positions are inverted, the real deinterleave_data_bits
+    (repair on: row / column Hamming corrections in the order the source runs them, write-back through the interleaver) is
+    interpreted on that word; every syndrome is then a constant (the message part cancels, rows and columns are codewords),
+    so each run is one path, and output bit i must be exactly message atom i."""
+    import itertools
+    import os
+    from concurrent.futures import ProcessPoolExecutor
+    repo = ctx.repo
+    ctx.rule("repair/corrects-weight-le-2", "for every error pattern of weight 1 or 2 (class by class) the decoder with repair returns exactly the encoded message, for all 2^96 messages")
+    pos = {}   # tx position -> (row, col) or None for the pad bit
+    for k, v in T.items():
+        pos[v[0]] = (v[1], v[2]) if k >= 1 else None
+    singles = [(p,) for p in range(196)]
+    pairs = list(itertools.combinations(range(196), 2))
+
+    def klass(e):
+        if len(e) == 1:
+            return "single errors"
+        a, b = pos[e[0]], pos[e[1]]
+        if a is None or b is None:
+            return "pairs with the pad bit R(3)"
+        if a[0] == b[0]:
+            return "pairs in one matrix row"
+        if a[1] == b[1]:
+            return "pairs in one matrix column"
+        return "pairs in different rows and columns"
+    todo = list(singles)
+    other_n = 0
+    for e in pairs:
+        k = klass(e)
+        if k == "pairs in different rows and columns" and ctx.tier == "quick":
+            other_n += 1
+            if other_n % 17:
+                continue
+        todo.append(e)
+    ctx.extra["error_patterns_analysed"] = len(todo)
+    ctx.extra["error_patterns_total"] = len(singles) + len(pairs)
+    chunks = [todo[i:i + 40] for i in range(0, len(todo), 40)]
+    with ProcessPoolExecutor(max_workers=min(16, os.cpu_count() or 4)) as ex:
+        results = list(ex.map(_repair_worker, [(str(repo.root), c) for c in chunks]))
+    by = {}
+    for chunk, res in zip(chunks, results):
+        for e, (why, err) in zip(chunk, res):
+            d = by.setdefault(klass(e), {"n": 0, "bad": [], "err": []})
+            d["n"] += 1
+            if err:
+                d["err"].append(f"{e}: {err}")
+            elif why:
+                d["bad"].append((e, why))
+    rep = repo.find_method(ci, "repair_if_necessary")
+    for k, d in sorted(by.items()):
+        if d["err"] and not d["bad"]:
+            ctx.analysis_errors.append(f"repair clause, {k}: {d['err'][0]}")
+            continue
+        ctx.ob("repair/corrects-weight-le-2", f"{ci.qualname} | {k}", not d["bad"],
+               f"{d['n']} patterns, message symbolic; " + (f"{len(d['bad'])} patterns decode to another message, e.g. inverted on-air bits " +
+                                                           "; ".join(f"{'+'.join(map(str, e))} (matrix cells {[pos[x] for x in e]}): {why}" for e, why in d["bad"][:3]) if d["bad"] else "all corrected"),
+               rep.loc, facts={"patterns": d["n"], "failing": len(d["bad"]), "first_failing": [list(e) for e, _ in d["bad"][:10]]})
+
+
+_RR = {}
+
+
+def _repair_worker(task):
+    root, chunk = task
+    from sa.bitabs import ABits, F, Interp, explore
+    from sa.model import Repo
+    if root not in _RR:
+        repo = Repo(root)
+        ci = repo.cls(MOD, "BPTC19696")
+        _RR[root] = (repo, repo.find_method(ci, "encode"), repo.find_method(ci, "deinterleave_data_bits"))
+    repo, enc, ext = _RR[root]
+    out = []
+    for e in chunk:
+        try:
+            I = Interp(repo)
+            I.interpret_constant_syndromes = True   # the real check_and_correct decides which bit a known syndrome inverts
+
+            def run(st, e=e):
+                I.st = st
+                cw = I.call(enc, [I.wire("m", 96)], {})
+                items = list(cw.items)
+                for p in e:
+                    items[p] = items[p] ^ F(0, 1)
+                return I.call(ext, [ABits(items, cw.kind)], {"repair_if_necessary": True})
+            res = explore(run, max_paths=4)
+            why = None
+            for st, (k, v) in res:
+                I.st = st
+                if k != "ok":
+                    why = f"{k}: {v}"
+                    break
+                if not isinstance(v, ABits) or len(v.items) != 96:
+                    why = f"decoder returns {v!r}"
+                    break
+                wrong = [i for i in range(96) if I.simp(v.items[i]) != I.simp(I.atom_form(("m", i)))]
+                if wrong:
+                    why = f"message bits {wrong[:4]} wrong"
+                    break
+            out.append((why, None))
+        except AnalysisError as ex:
+            out.append((None, str(ex)))
+        except Exception as ex:
+            out.append((None, f"{type(ex).__name__}: {ex}"))
+    return out
